@@ -69,6 +69,7 @@ def run(chk: Check) -> None:
     atom_terminal_guard(chk)
     terminal_hooks_cannot_fail_on_futures(chk)
     subscription_idempotent(chk)
+    inflight_step_released(chk)
 
 
 def subscription_idempotent(chk: Check) -> None:
@@ -456,3 +457,67 @@ def wait_release(chk: Check) -> None:
             classify(chk.ctx, s)
             chk.ob('FUT-wait-release', f, s.guard in ('guarded', 'fresh'), f'the release is {s.guard} (the future may already have been resolved by play())',
                    node=s.call, kind='release-guarded')
+
+
+def inflight_step_released(chk: Check, rule: str = 'FUT-wait-release') -> None:
+    """The step in flight may be blocked inside the state's own execute (the WAITING step awaits the waiting future).  A
+    transition made from OUTSIDE the step (fail() from an excepting callback; a direct kill) abandons that state object: the
+    blocked step must be released, or the task running step_until_terminated() never returns.  Either leaving the state
+    resolves the future it awaits (a guarded write reachable from the state's exit()), or every transition site that can run
+    while a step is in flight interrupts the state first / is known to run with no step in flight."""
+    from ..facts import falsy
+    from ..fut import classify, writer_sites
+    from ..rules import Contexts, call_sites
+    from . import common
+    prog = chk.prog
+    base = prog.cls('process_states.State')
+    cx = Contexts(chk.ctx)
+    n = 0
+    for c in prog.subclasses(base):
+        ex = c.methods.get('execute')
+        if ex is None or not ex.is_async:
+            continue
+        ff = chk.ctx.facts.analyse(ex)
+        keys = sorted({ff.canon.key(a.value) for a in ast.walk(ex.node) if isinstance(a, ast.Await) and isinstance(a.value, (ast.Attribute, ast.Name))
+                       and ff.canon.key(a.value).startswith('self.')})
+        for key in keys:
+            n += 1
+            # functions run when the state is left: every exit() along the MRO and what they call synchronously
+            seen, stack = {}, [k.methods['exit'] for k in c.mro_classes() if 'exit' in k.methods]
+            while stack:
+                g = stack.pop()
+                if id(g.node) in seen:
+                    continue
+                seen[id(g.node)] = g
+                stack += [h for h in chk.ctx.calls.summary(g).callees if not h.is_async]
+            rel = [classify(chk.ctx, s_) for g in seen.values() for s_ in writer_sites(chk.ctx, g, [key])]
+            released = [s_ for s_ in rel if s_.guard in ('guarded', 'fresh')]
+            if rel:
+                chk.ob(rule, ex, True, f'{c.name}: leaving the state resolves {key} ({rel[0].func.short}): a step blocked on it is released whoever made the transition',
+                       kind=f'inflight-step-released:{c.name}', expr=key)
+                for s_ in rel:
+                    chk.ob(rule, s_.func, s_.guard in ('guarded', 'fresh'), f'the release on exit is {s_.guard} (on the normal way out of the state the future is already resolved: an unguarded write '
+                           'raises InvalidStateError inside the transition)', node=s_.call, kind='exit-release-guarded')
+                continue
+            # otherwise every outside transition must know that no step is in flight, or interrupt the state first
+            bad = []
+            for f, call in call_sites(prog, 'transition_to'):
+                if f.qualname == 'base.state_machine.StateMachineMeta.__call__' or f.name in ('transition_failed', 'step'):
+                    continue
+                for cname, entry in cx.contexts(f, 3):
+                    if 'interrupt action run at' in cname:
+                        continue
+                    f2 = chk.ctx.facts.analyse(f, entry)
+                    cfg2 = f2.cfg
+                    intr = [m for m in cfg2.nodes if m.expr() is not None and any(isinstance(x, ast.Call) and last_name(x) == 'interrupt' for x in walk_shallow(m.expr()))]
+                    for node_, fs in f2.site_facts(call):
+                        if falsy(fs, 'self._stepping') or cfg2.must_pass(cfg2.entry, [node_], lambda m: m in intr, edge_ok=no_exc):
+                            continue
+                        bad.append((f, call, cname))
+            for f, call, cname in bad[:4]:
+                chk.ob(rule, f, False, f'this transition can run while a {c.name} step is blocked on {key} (context [{cname}]: no step known not to be in flight, the state is not interrupted first) '
+                       f'and leaving {c.name} does not resolve that future: the process ends up terminal but step_until_terminated() never returns', node=call, kind=f'inflight-step-orphaned:{c.name}')
+            if not bad:
+                chk.ob(rule, ex, True, f'{c.name}: every transition made outside the step runs with no step in flight or interrupts the state first', kind=f'inflight-step-released:{c.name}', expr=key)
+    chk.units['state_awaits_on_own_futures'] = n
+    chk.need(n >= 1, 'no state awaits a future of its own: the in-flight release rule has nothing to examine')
